@@ -52,6 +52,7 @@ class Assembled:
         self.labels = {}         # line no (1-based) -> (fnqual, label)
         self.also = {}           # label -> [other properties that own the clause too]
         self.imports = []        # (unit, relpath, qual): contracts imported verbatim from the unit where they are proved
+        self.skipped = []        # M4 segments whose anchors are lost on this tree (set aside; the run cannot end OK)
         self.fns = []            # dicts: qual, relpath, start, end (1-based lines), hash, mode, assumed
         self.rewrites = []
         self.trusted = []        # external_body / assume_specification / axioms found
@@ -140,7 +141,14 @@ def assemble(unit_path, variant=None):
             if variant and variant[0] == "vacuity" and (variant[1] is None or variant[1] in (qual, cq)) and not ann.get("external_body"):
                 ann["head"] = (ann.get("head") or "") + "\n    proof { /*@VAC*/ assert(false); }\n"
             if ann.get("seg_from"):
-                text, lmap, src, log, labels, it = X.extract_segment(p["relpath"], qual, ann)
+                try:
+                    text, lmap, src, log, labels, it = X.extract_segment(p["relpath"], qual, ann)
+                except X.Inconclusive as e:
+                    # a statement range whose anchors are lost cannot be checked on this tree: it is set aside (recorded in A.skipped) and the
+                    # rest of the unit is still verified. A violation found elsewhere is reported; without one the run ends INCONCLUSIVE.
+                    A.skipped.append({"fn": ann.get("seg_name"), "file": p["relpath"], "reason": str(e)})
+                    A.rewrites.append({"file": p["relpath"], "line": 0, "rule": "A0", "note": f"segment {ann.get('seg_name')} set aside: {e}"})
+                    return
                 qual = ann["seg_name"]
             else:
                 try:
